@@ -45,6 +45,8 @@ type step struct {
 	K   int       `json:"k"` // mutation number
 	X   bool      `json:"x"` // the statement also names the column zz, which the table does not have
 	Y   bool      `json:"y"` // the statement names its first column twice
+	// the row is the second row of a two-row INSERT whose first row the table accepts (ValueStore!PutTwo)
+	Guard bool `json:"guard"`
 }
 
 type request struct {
@@ -154,6 +156,17 @@ func textString(n, k, j int) string {
 		sb.WriteString(s)
 	}
 	return sb.String()
+}
+
+// guardValue: the value of a column in the first row of a guarded INSERT (ValueStoreMC!GuardRow)
+func guardValue(ty string) interface{} {
+	switch ty {
+	case "INT", "BIGINT":
+		return int64(1)
+	case "BOOLEAN":
+		return true
+	}
+	return "g"
 }
 
 func concrete(c cell, path string, k, j int) (interface{}, error) {
@@ -405,9 +418,24 @@ func run(req request) result {
 				if len(cols) == 0 {
 					return result{Err: "a row of NULLs cannot be written as SQL text"}
 				}
-				q := "INSERT INTO t (" + strings.Join(cols, ", ") + ") VALUES (" + strings.Join(lits, ", ") + ")"
+				rowsText := "(" + strings.Join(lits, ", ") + ")"
+				if s.Guard {
+					var glits []string
+					for j, v := range vals {
+						if v == nil {
+							continue
+						}
+						l, err := literal(guardValue(req.Schema[j]))
+						if err != nil {
+							return result{Err: err.Error()}
+						}
+						glits = append(glits, l)
+					}
+					rowsText = "(" + strings.Join(glits, ", ") + "), " + rowsText
+				}
+				q := "INSERT INTO t (" + strings.Join(cols, ", ") + ") VALUES " + rowsText
 				if len(cols) == len(vals) && s.K%2 == 0 && !s.X && !s.Y {
-					q = "INSERT INTO t VALUES (" + strings.Join(lits, ", ") + ")"
+					q = "INSERT INTO t VALUES " + rowsText
 				}
 				sr.SQL = q
 				if err := protect(func() error { return sess.ExecQuery(q) }); err != nil {
@@ -428,8 +456,15 @@ func run(req request) result {
 					st.InsertColumnsAndSource.InsertColumnList.ColumnNames = append([]string{colName(1)}, st.InsertColumnsAndSource.InsertColumnList.ColumnNames...)
 					vals = append([]interface{}{vals[0]}, vals...)
 				}
-				st.InsertColumnsAndSource.QueryExpression = sql.TableValueConstructor{
-					TableValueConstructorList: []sql.RowValueConstructor{{RowValueConstructorList: vals}}}
+				rowsDirect := []sql.RowValueConstructor{{RowValueConstructorList: vals}}
+				if s.Guard {
+					gvals := make([]interface{}, len(vals))
+					for j := range vals {
+						gvals[j] = guardValue(req.Schema[j%len(req.Schema)])
+					}
+					rowsDirect = append([]sql.RowValueConstructor{{RowValueConstructorList: gvals}}, rowsDirect...)
+				}
+				st.InsertColumnsAndSource.QueryExpression = sql.TableValueConstructor{TableValueConstructorList: rowsDirect}
 				if err := protect(func() error { _, e := engine.EvaluateInsert(st, sess.RelationService); return e }); err != nil {
 					sr.Err = err.Error()
 				}
